@@ -343,7 +343,10 @@ def case_accept_reject(col, p):
                     continue
                 pr = [c / float(st) for c in combo]          # decimal floats, as a user would write them
                 try:
-                    fn(phi0.copy(), *pr, *[xx] * d) if inplace else fn(phi0.copy(), *pr, *[xx] * d, xx)
+                    res = fn(phi0.copy(), *pr, *[xx] * d) if inplace else fn(phi0.copy(), *pr, *[xx] * d, xx)
+                    if not np.isfinite(np.asarray(res)).all():
+                        # (a mixture frequency that round-off pushes one ulp beyond the last grid point still has a bracketing interval)
+                        col.violation('C06:%s:not_finite' % name, dict(p, props=pr), {'nonfinite_entries': int((~np.isfinite(np.asarray(res))).sum())})
                 except ValueError as e:
                     col.violation('C06:%s:rejects_simplex_vector' % name, dict(p, props=pr), 'ValueError: %s' % str(e)[:100])
                 except Exception as e:
